@@ -8,6 +8,8 @@ pub mod c05;
 #[cfg(feature = "cshim")]
 pub mod c06;
 pub mod c07;
+#[cfg(all(feature = "full", blake3_team_blake3_verif))]
+pub mod c08;
 pub mod c09;
 pub mod c10;
 #[cfg(feature = "full")]
@@ -45,6 +47,8 @@ pub fn subs(prop: &str) -> Vec<Box<dyn DynSub>> {
         #[cfg(feature = "cshim")]
         "C06" => c06::subs(),
         "C07" => c07::subs(),
+        #[cfg(all(feature = "full", blake3_team_blake3_verif))]
+        "C08" => c08::subs(),
         "C09" => c09::subs(),
         "C10" => c10::subs(),
         #[cfg(feature = "full")]
